@@ -505,6 +505,9 @@ func judge(c Cfg, r Req) verdict {
 		}
 		got, ok := reqHeader(r, n)
 		switch {
+		case !ok && strings.HasPrefix(want, ": "):
+			// Header.Get gives "" for an absent header: the same as the configured value cut at its first ": "
+			bad = append(bad, "header-truncated-at-colon-space")
 		case !ok:
 			bad = append(bad, "header-missing")
 		case got == want:
